@@ -1035,3 +1035,42 @@ def shrink_prio1(sc):
         meta = dict(m, ops=ops, nput=sum(1 for o in ops if o[0] == 1))
         kind = 0 if m["divider"] == "Fair" else 1
         yield Scenario(enc_prio1(kind, m["H"], m["ocap"], m["cfg"], ops), sc.label, meta, nontrivial=True, version="v1")
+
+
+# ---------------------------------------------------------------- systematic injection at every position (thorough tier)
+def inject_everywhere_prio1(rng, tier, what):
+    """what: 'stop' | 'cancel' | 'fault': for a few base scripts, one scenario per position of the script"""
+    out = []
+    for _ in range(4 if tier == "quick" else 40):
+        base = gen_prio1_scenario(rng, "quick")
+        m = base.meta
+        body = [o for o in m["ops"]]
+        cut = next((i for i, o in enumerate(body) if o[0] == 10), len(body))
+        body = body[:cut]          # without the graceful finale
+        kind = 0 if m["divider"] == "Fair" else 1
+        step = 1 if tier != "quick" else max(len(body) // 6, 1)
+        for k in range(0, len(body) + 1, step):
+            if what == "fault":
+                ops = body[:k] + [(rng.choice([5, 7]), rng.choice([1, 2, m["H"]]), 0, True)] + body[k:]
+                for ch in sorted({o[1] for o in body if o[0] in (1, 8)} | {c for _, c in m["cfg"]}):
+                    ops.append((2, ch, 0, True))
+                ops.append((10, 0, 0, True))
+                for _ in range(m["nput"] + 3):
+                    ops += [(3, 0, 0, True), (4, 0, 0, True)]
+                meta = dict(m, ops=ops, fault=True, stop=None, style=m["style"])
+            else:
+                ops = body[:k] + [(11 if what == "stop" else 12, 0, 0, True), (3, 0, 0, True), (3, 0, 0, True)]
+                meta = dict(m, ops=ops, fault=False, stop=what)
+            out.append(Scenario(enc_prio1(kind, m["H"], m["ocap"], m["cfg"], ops), "inject-%s-at-%d" % (what, k), meta, nontrivial=True, version="v1"))
+    return out
+
+
+def prio1_generate_with_injection(fault_share, stop_share, what):
+    gen = prio1_generate(fault_share, stop_share)
+
+    def generate(rng, tier):
+        out = gen(rng, tier)
+        if what == "stop":
+            return out + inject_everywhere_prio1(rng, tier, "stop") + inject_everywhere_prio1(rng, tier, "cancel")
+        return out + inject_everywhere_prio1(rng, tier, what)
+    return generate
